@@ -1,0 +1,40 @@
+//go:build verif
+// +build verif
+
+// Package c13 re-exports what the C13 harness needs from internal/plumbing and internal/levenshtein.
+package c13
+
+import (
+	"gopkg.in/src-d/hercules.v10/internal/levenshtein"
+	"gopkg.in/src-d/hercules.v10/internal/plumbing"
+)
+
+// RenameAnalysis is plumbing.RenameAnalysis.
+type RenameAnalysis = plumbing.RenameAnalysis
+
+// CachedBlob is plumbing.CachedBlob.
+type CachedBlob = plumbing.CachedBlob
+
+// LevenshteinContext is levenshtein.Context.
+type LevenshteinContext = levenshtein.Context
+
+// Names of dependencies and options, constants of the heuristic.
+const (
+	DependencyTreeChanges                   = plumbing.DependencyTreeChanges
+	DependencyBlobCache                     = plumbing.DependencyBlobCache
+	ConfigRenameAnalysisSimilarityThreshold = plumbing.ConfigRenameAnalysisSimilarityThreshold
+	ConfigRenameAnalysisTimeout             = plumbing.ConfigRenameAnalysisTimeout
+	RenameAnalysisDefaultThreshold          = plumbing.RenameAnalysisDefaultThreshold
+	RenameAnalysisDefaultTimeout            = plumbing.RenameAnalysisDefaultTimeout
+	RenameAnalysisMinimumSize               = plumbing.RenameAnalysisMinimumSize
+	RenameAnalysisMaxCandidates             = plumbing.RenameAnalysisMaxCandidates
+	RenameAnalysisSetSizeLimit              = plumbing.RenameAnalysisSetSizeLimit
+)
+
+// Read-only accessors to unexported parts of renames.go.
+var (
+	Less                 = plumbing.VerifC13Less
+	SortByHash           = plumbing.VerifC13SortByHash
+	SortBySize           = plumbing.VerifC13SortBySize
+	SortRenameCandidates = plumbing.VerifC13SortRenameCandidates
+)
